@@ -284,3 +284,108 @@ def run(m):
     v = r["violations"]
     return {"failing": bool(v), "witness": v[0]["witness"] if v else "locations", "call": v[0]["source"] if v else "span sweep", "result": v[0]["got"] if v else "ok"}
 '''
+
+
+# ---- "every location reported by static analysis ... indexes into the source at the reported
+# ---- name": a variable's location is the token of its path, and a path -- also one nested in
+# ---- square brackets -- carries the token of its FIRST segment (the name), not of the bracket
+
+REPLAY_NESTED_PATH = r'''
+def run(m):
+    from liquid import Environment
+    env = Environment()
+    bad = []
+    for src in ("{{ prices[first.id] }}", "{{ a[b[c.d].e] }}", "{{ x[ y ] }}\n{{ x[y].z }}"):
+        t = env.from_string(src, name="t")
+        for group in (t.analyze().variables, t.analyze().globals):
+            for name, locs in group.items():
+                for v in locs:
+                    root = str(v).split(".")[0].split("[")[0]
+                    sp = v.span
+                    if not src[sp.start:].startswith(root):
+                        bad.append((src, str(v), sp.start, src[sp.start:sp.start + 6]))
+    return {"violated": bool(bad), "observed": bad[:4], "witness": "nested-path-located-at-its-bracket"}
+'''
+
+
+def _tok(c, kind, name, value=None):
+    return c.obj("liquid.token:Token", name, kind=const(kind), value=const(value) if value is not None else c.str(name + "_value"), start_index=c.int(name + "_start"), source=c.str("source"))
+
+
+@contract("liquid.builtin.expressions.path:Path.parse", prop="C20", name="Path.parse[a[b.c] d: each path, nested or not, carries the token of its first segment]")
+def path_parse_tokens(c):
+    K = lambda n: flow.const_eval(load.get_module("liquid.token"), ast.parse(n, mode="eval").body)  # noqa: E731
+    a, lb, b, dot, cc, rb, end = (_tok(c, K("TOKEN_WORD"), "a", "a"), _tok(c, K("TOKEN_LBRACKET"), "lbracket", "["), _tok(c, K("TOKEN_WORD"), "b", "b"), _tok(c, K("TOKEN_DOT"), "dot", "."),
+                                  _tok(c, K("TOKEN_WORD"), "c", "c"), _tok(c, K("TOKEN_RBRACKET"), "rbracket", "]"), _tok(c, K("TOKEN_PIPE"), "pipe", "|"))
+    eof = _tok(c, K("TOKEN_EOF"), "eof", "")
+    stream = c.obj("liquid.stream:TokenStream", "tokens", tokens=c.st.alloc(HList(items=[a, lb, b, dot, cc, rb, end])), pos=const(0), block_depth=const(0), eof=eof)
+    env = c.obj("liquid.environment:Environment", "env", mode=VConst(("enum", "Mode", "STRICT")), shorthand_indexes=c.bool("shorthand_indexes"))
+    c.call(env, stream)
+
+    def post(r):
+        h = r.st.deref(r.value) if isinstance(r.value, VRef) else None
+        if not (isinstance(h, HObj) and h.cls[1] == "Path" and h.fields.get("token") == a):
+            return z3.BoolVal(False)
+        segs = r.engine.concrete_items(r.st, h.fields["path"])
+        if segs is None or len(segs) != 2 or concrete(segs[0]) != (True, "a") or not isinstance(segs[1], VRef):
+            return z3.BoolVal(False)
+        inner = r.st.deref(segs[1])
+        isegs = r.engine.concrete_items(r.st, inner.fields["path"]) if isinstance(inner, HObj) and inner.cls[1] == "Path" else None
+        ok = isegs is not None and [concrete(x) for x in isegs] == [(True, "b"), (True, "c")] and inner.fields.get("token") == b
+        return z3.And(z3.BoolVal(bool(ok)), r.st.deref(stream).fields["pos"].t == 6)
+    c.ensures("outer-path-is-at-`a`-and-the-nested-path-b.c-is-at-`b`(not-at-the-bracket)-and-parsing-stops-at-the-pipe", post)
+    c.raises()
+    c.replay("code", code=REPLAY_NESTED_PATH)
+
+
+@structural("C20", "visit-names-the-visited-template")
+def visit_names_visited_template():
+    """static analysis (sync and async): a location's template name is the name that travels
+    with the visit (`template_name`, or the partial's own name) -- the visit of a node never
+    consults the ROOT template being analysed, whose name is only the starting value"""
+    obs = []
+    mod = load.get_module("liquid.static_analysis")
+    n = 0
+    for fname in ("analyze", "analyze_async"):
+        fn = mod.funcs[fname]
+        root_param = fn.args.args[0].arg
+        for inner in ast.walk(fn):
+            if isinstance(inner, (ast.FunctionDef, ast.AsyncFunctionDef)) and inner.name == "_visit":
+                n += 1
+                uses = sorted({f"{flow.dotted(p)}@{p.lineno - fn.lineno}" for p in ast.walk(inner) if isinstance(p, ast.Name) and p.id == root_param})
+                params = [a.arg for a in inner.args.args]
+                obs.append(flow.ob(f"{fname}._visit:never-reads-the-root-template", not uses and "template_name" in params, f"reads of `{root_param}` inside _visit: {uses}", replay_schema="code", replay_extra={"code": REPLAY_SNIPPET_SPAN}))
+                # every Span built in the visit is named by template_name
+                spans = [c_ for c_ in flow.calls(inner) if flow.dotted(c_.func) == "Span"]
+                bad = [ast.unparse(c_)[:60] for c_ in spans if not (c_.args and flow.dotted(c_.args[0]) == "template_name")]
+                obs.append(flow.ob(f"{fname}._visit:every-span-is-named-by-the-visited-template", bool(spans) and not bad, str(bad), replay_schema="code", replay_extra={"code": REPLAY_SNIPPET_SPAN}))
+                # the name handed to the visit of a partial's children derives from the partial or the visited template only
+                assigns = [st_ for st_ in ast.walk(inner) if isinstance(st_, ast.Assign) and any(flow.dotted(t) == "partial_name" for t in st_.targets)]
+                names = {p.id for st_ in assigns for p in ast.walk(st_.value) if isinstance(p, ast.Name)}
+                obs.append(flow.ob(f"{fname}._visit:a-partials-name-comes-from-the-partial-or-the-visited-template", bool(assigns) and names <= {"partial", "partial_name", "template_name", "static_context", "str", "isinstance"}, str(sorted(names)), replay_schema="code", replay_extra={"code": REPLAY_SNIPPET_SPAN}))
+    obs.append(flow.ob("visit-functions-found", n == 2, f"{n}"))
+    return obs
+
+
+REPLAY_SNIPPET_SPAN = r'''
+def run(m):
+    import asyncio
+    from liquid import Environment, DictLoader
+    try:
+        from liquid.extra import SnippetTag
+    except Exception:
+        return {"violated": False, "observed": "no snippet tag in this tree"}
+    sources = {"part": "intro text, long enough to move offsets {% snippet s %}{{ inner_var | upcase }}{% endsnippet %}{% render s %}"}
+    env = Environment(extra=True, loader=DictLoader(sources))
+    env.add_tag(SnippetTag)
+    sources["root"] = "{% include 'part' %}"
+    t = env.from_string(sources["root"], name="root")
+    bad = []
+    for an in (t.analyze(), asyncio.run(t.analyze_async())):
+        for name, locs in an.variables.items():
+            for v in locs:
+                src = sources.get(v.span.template_name, "")
+                if not src[v.span.index:].startswith(name.split(".")[0]):
+                    bad.append((name, v.span.template_name, v.span.index))
+    return {"violated": bool(bad), "observed": bad[:4], "witness": "snippet-in-partial-attributed-to-root"}
+'''
